@@ -1,2 +1,312 @@
-/- C06 — theorems under construction -/
-import MPilot.Model.Eems
+/-
+C06 — fuzzy-logic operators compute the EEMS definitions and obey their algebra.
+-/
+import MPilot.Props.C07
+import Mathlib.Data.List.Sort
+import Mathlib.Tactic.FieldSimp
+import Mathlib.Tactic.Positivity
+
+namespace MPilot.C06
+open MPilot
+
+/-! ### the clamp is the identity on fuzzy values, so on in-range inputs the operators compute the bare definitions -/
+
+theorem clamp_id {x : Rat} (h1 : -1 ≤ x) (h2 : x ≤ 1) : clampHiLo (-1) 1 x = x := by
+  unfold clampHiLo
+  simp only
+  split_ifs <;> linarith
+
+/-- a fuzzy (in-range) array is visibly unchanged by `insure_fuzzy` — the only in-place step applied to an aliased input -/
+theorem insure_inrange (a : Arr) (h : ∀ c ∈ a.cells, c.mask = false → -1 ≤ c.val ∧ c.val ≤ 1) : ArrR (a.insure (-1) 1) a := by
+  refine ⟨rfl, rfl, ?_⟩
+  simp only [Arr.insure, Arr.mapCells]
+  have : ∀ l : List Cell, (∀ c ∈ l, c.mask = false → -1 ≤ c.val ∧ c.val ≤ 1) →
+      List.Forall₂ CellR (l.map (Cell.insure (-1) 1)) l := by
+    intro l
+    induction l with
+    | nil => intro _; exact .nil
+    | cons c t ih =>
+      intro hl
+      refine .cons ?_ (ih fun d hd => hl d (List.mem_cons_of_mem _ hd))
+      unfold Cell.insure CellR
+      cases hm : c.mask
+      · have := hl c (List.mem_cons_self ..) hm
+        simp [clamp_id this.1 this.2]
+      · simp
+  exact this _ h
+
+/-! ### Or = max, And = min, Not = negation (cell definitions) -/
+
+/-- **FuzzyOr / FuzzyAnd**: before the final clamp, cell `i` is missing iff some input is missing there and otherwise
+holds the maximum / minimum of the column (an element of the column that bounds all others). -/
+theorem or_cell (sqrt : Rat → Rat) (a : Arr) (t : List Arr) (r : Arr) (i : Nat)
+    (h : exec sqrt .fuzzyOr (a :: t) = .ok r) (hi : ∀ x ∈ a :: t, i < x.cells.length)
+    (hr : ∀ x ∈ a :: t, ∀ c ∈ x.cells, -1 ≤ c.val ∧ c.val ≤ 1) :
+    ∃ c, r.cells[i]? = some c ∧ c.mask = (column (a :: t) i).any (·.mask) ∧
+      (c.mask = false → c.val ∈ (column (a :: t) i).map (·.val) ∧ ∀ y ∈ (column (a :: t) i).map (·.val), y ≤ c.val) := by
+  simp only [exec, fuzzyClamp] at h
+  cases hq : naryFold (.arg "InFieldNames") ratMax (a :: t) with
+  | error e => rw [hq] at h; simp [Except.map] at h
+  | ok q =>
+    rw [hq] at h
+    simp only [Except.map, Except.ok.injEq] at h
+    subst h
+    obtain ⟨c, h1, h2, h3⟩ := C07.naryFold_cell _ _ a t q i hq hi
+    refine ⟨Cell.insure (-1) 1 c, ?_, ?_, ?_⟩
+    · simp [Arr.insure, Arr.mapCells, h1]
+    · rw [← h2]; unfold Cell.insure; cases c.mask <;> rfl
+    · intro hm
+      have hcm : c.mask = false := by
+        unfold Cell.insure at hm; cases hc : c.mask <;> simp_all
+      have hv := h3 hcm
+      simp only [column, List.map_cons] at hv ⊢
+      have hmem := C07.fold1_max_mem ((a.cells.getD i default).val) ((t.map fun x => x.cells.getD i default).map (·.val))
+      have hge := C07.fold1_max_ge ((a.cells.getD i default).val) ((t.map fun x => x.cells.getD i default).map (·.val))
+      have hin : -1 ≤ c.val ∧ c.val ≤ 1 := by
+        rw [hv]
+        rcases List.mem_cons.mp hmem with e | e
+        · rw [e]
+          have := hi a (List.mem_cons_self ..)
+          have hc := hr a (List.mem_cons_self ..) (a.cells.getD i default) (by
+            simp [List.getD, List.getElem?_eq_getElem this])
+          exact hc
+        · rw [List.mem_map] at e
+          obtain ⟨d, hd, e⟩ := e
+          rw [List.mem_map] at hd
+          obtain ⟨x, hx, rfl⟩ := hd
+          rw [← e]
+          have := hi x (List.mem_cons_of_mem _ hx)
+          exact hr x (List.mem_cons_of_mem _ hx) _ (by simp [List.getD, List.getElem?_eq_getElem this])
+      have : (Cell.insure (-1) 1 c).val = c.val := by
+        unfold Cell.insure; simp [hcm, clamp_id hin.1 hin.2]
+      rw [this, hv]
+      exact ⟨hmem, hge⟩
+
+/-- **FuzzyNot** negates every present cell and keeps the missing ones (values in range stay in range: no clamping). -/
+theorem not_cells (sqrt : Rat → Rat) (a r : Arr) (h : exec sqrt .fuzzyNot [a] = .ok r)
+    (hr : ∀ c ∈ a.cells, -1 ≤ c.val ∧ c.val ≤ 1) :
+    r.shape = a.shape ∧ r.vis = a.cells.map (fun c => if c.mask then none else some (-c.val)) := by
+  simp only [exec, fuzzyClamp, Except.map, Except.ok.injEq] at h
+  subst h
+  refine ⟨rfl, ?_⟩
+  simp only [Arr.vis, Arr.insure, Arr.mapCells, List.map_map]
+  apply List.map_congr_left
+  intro c hc
+  have := hr c hc
+  simp only [Function.comp, Cell.vis, Cell.insure, Cell.sc]
+  cases hm : c.mask
+  · have h1 : -1 ≤ -c.val := by linarith
+    have h2 : -c.val ≤ 1 := by linarith
+    simp [clamp_id h1 h2]
+  · simp
+
+/-- **Not is an involution** on fuzzy arrays (visibly). -/
+theorem not_involutive (sqrt : Rat → Rat) (a r1 r2 : Arr) (h1 : exec sqrt .fuzzyNot [a] = .ok r1)
+    (h2 : exec sqrt .fuzzyNot [r1] = .ok r2) (hr : ∀ c ∈ a.cells, -1 ≤ c.val ∧ c.val ≤ 1) :
+    r2.vis = a.vis ∧ r2.shape = a.shape := by
+  simp only [exec, fuzzyClamp, Except.map, Except.ok.injEq] at h1 h2
+  subst h1; subst h2
+  refine ⟨?_, rfl⟩
+  simp only [Arr.vis, Arr.insure, Arr.mapCells, List.map_map]
+  apply List.map_congr_left
+  intro c hc
+  have := hr c hc
+  simp only [Function.comp, Cell.vis, Cell.insure, Cell.sc]
+  cases hm : c.mask
+  · have h1 : -1 ≤ -c.val := by linarith
+    have h2 : -c.val ≤ 1 := by linarith
+    simp [clamp_id h1 h2, clamp_id this.1 this.2]
+  · simp
+
+/-! ### algebra at the level of a column of fuzzy values -/
+
+/-- **De Morgan**: negation exchanges max and min -/
+theorem neg_max_eq_min_neg (x : Rat) (l : List Rat) :
+    -(fold1 ratMax (x :: l)) = fold1 ratMin ((x :: l).map (fun v => -v)) := by
+  simp only [List.map_cons, fold1_cons]
+  induction l generalizing x with
+  | nil => rfl
+  | cons y t ih =>
+    simp only [List.foldl_cons, List.map_cons]
+    rw [ih]
+    congr 1
+    unfold ratMax ratMin
+    split_ifs <;> first | rfl | linarith
+
+theorem neg_min_eq_max_neg (x : Rat) (l : List Rat) :
+    -(fold1 ratMin (x :: l)) = fold1 ratMax ((x :: l).map (fun v => -v)) := by
+  simp only [List.map_cons, fold1_cons]
+  induction l generalizing x with
+  | nil => rfl
+  | cons y t ih =>
+    simp only [List.foldl_cons, List.map_cons]
+    rw [ih]
+    congr 1
+    unfold ratMax ratMin
+    split_ifs <;> first | rfl | linarith
+
+/-- **And ≤ Union ≤ Or** for every non-empty column -/
+theorem and_le_union_le_or (x : Rat) (l : List Rat) :
+    fold1 ratMin (x :: l) ≤ (x :: l).sum / ((x :: l).length : Rat) ∧
+    (x :: l).sum / ((x :: l).length : Rat) ≤ fold1 ratMax (x :: l) := by
+  have hpos : (0 : Rat) < ((x :: l).length : Rat) := by simp; positivity
+  have hmin := C07.fold1_min_le x l
+  have hmax := C07.fold1_max_ge x l
+  generalize fold1 ratMin (x :: l) = m at hmin
+  generalize fold1 ratMax (x :: l) = M at hmax
+  have key : ∀ (L : List Rat), (∀ y ∈ L, m ≤ y) → (∀ y ∈ L, y ≤ M) → m * L.length ≤ L.sum ∧ L.sum ≤ M * L.length := by
+    intro L
+    induction L with
+    | nil => intro _ _; simp
+    | cons z t ih =>
+      intro h1 h2
+      have := ih (fun y hy => h1 y (List.mem_cons_of_mem _ hy)) (fun y hy => h2 y (List.mem_cons_of_mem _ hy))
+      have a1 := h1 z (List.mem_cons_self ..)
+      have a2 := h2 z (List.mem_cons_self ..)
+      simp only [List.sum_cons, List.length_cons, Nat.cast_add, Nat.cast_one]
+      constructor <;> nlinarith [this.1, this.2]
+  obtain ⟨k1, k2⟩ := key (x :: l) hmin hmax
+  constructor
+  · rw [le_div_iff₀ hpos]; exact k1
+  · rw [div_le_iff₀ hpos]; exact k2
+
+/-! ### exclusive or -/
+
+/-- the EEMS exclusive-or of the two truest values stays within the fuzzy range -/
+theorem xor_range (t1 t2 : Rat) (h1 : t1 ≤ 1) (h2 : -1 ≤ t2) (h12 : t2 ≤ t1) :
+    -1 ≤ (xorCell [t2, t1]).val ∧ (xorCell [t2, t1]).val ≤ 1 := by
+  simp only [xorCell, List.length_cons, List.length_nil, List.getD]
+  norm_num
+  split_ifs with h
+  · constructor <;> simp
+  · push Not at h
+    have hp : 0 < t1 + 1 := by linarith
+    have e : t1 - (t1 - t2) * (t2 + 1) / (t1 + 1) = (t1 * (t1 + 1) - (t1 - t2) * (t2 + 1)) / (t1 + 1) := by
+      field_simp
+    simp only
+    rw [e]
+    constructor
+    · rw [le_div_iff₀ hp]; nlinarith
+    · rw [div_le_iff₀ hp]; nlinarith [mul_nonneg (sub_nonneg.mpr h12) (by linarith : (0 : Rat) ≤ t2 + 1)]
+
+/-! ### selected union: k = 1 is Or / And, k = all is Union -/
+
+theorem sel_all_is_mean (truest : Bool) (asc : List Rat) :
+    (selCell truest asc.length asc).val = asc.sum / (asc.length : Rat) := by
+  unfold selCell
+  cases truest <;> simp [sumL, List.sum_eq_foldl]
+
+/-! ### every input order gives the same outcome -/
+
+theorem or_perm (sqrt : Rat → Rat) {xs xs' : List Arr} (h : xs.Perm xs') (n : Nat) (hn : ∀ x ∈ xs, x.cells.length = n) :
+    ExceptR (exec sqrt .fuzzyOr xs) (exec sqrt .fuzzyOr xs') := by
+  simp only [exec]; exact fuzzyClamp_R (naryFold_perm _ _ ratMax_comm ratMax_assoc h n hn)
+
+theorem and_perm (sqrt : Rat → Rat) {xs xs' : List Arr} (h : xs.Perm xs') (n : Nat) (hn : ∀ x ∈ xs, x.cells.length = n) :
+    ExceptR (exec sqrt .fuzzyAnd xs) (exec sqrt .fuzzyAnd xs') := by
+  simp only [exec]; exact fuzzyClamp_R (naryFold_perm _ _ ratMin_comm ratMin_assoc h n hn)
+
+theorem sortRat_perm {l l' : List Rat} (h : l.Perm l') : sortRat l = sortRat l' := by
+  unfold sortRat
+  apply List.Perm.eq_of_pairwise (le := fun x y => x ≤ y)
+  · intro x y _ _ h1 h2; exact le_antisymm h1 h2
+  · exact (List.pairwise_mergeSort (le := fun x y => decide (x ≤ y))
+      (by intro a b c; simp; intro h1 h2; exact le_trans h1 h2) (by intro a b; simp; exact le_total a b) l).imp (by simp)
+  · exact (List.pairwise_mergeSort (le := fun x y => decide (x ≤ y))
+      (by intro a b c; simp; intro h1 h2; exact le_trans h1 h2) (by intro a b; simp; exact le_total a b) l').imp (by simp)
+  · exact (List.mergeSort_perm l _).trans (h.trans (List.mergeSort_perm l' _).symm)
+
+/-- the stacked-and-sorted cell does not depend on the order of the inputs -/
+theorem stackCell_perm (f : List Rat → Cell) {xs xs' : List Arr} (h : xs.Perm xs') (i : Nat) :
+    stackCell xs f i = stackCell xs' f i := by
+  unfold stackCell
+  have hc := column_perm h i
+  rw [any_perm hc, sortRat_perm (hc.map _)]
+
+theorem stackMap_perm (f : List Rat → Cell) {xs xs' : List Arr} (h : xs.Perm xs') (n : Nat)
+    (hn : ∀ x ∈ xs, x.cells.length = n) (hs : SameShape xs) : ArrR (stackMap xs f) (stackMap xs' f) := by
+  cases xs with
+  | nil => rw [List.nil_perm.mp h]; exact ArrR.refl _
+  | cons a t =>
+    cases xs' with
+    | nil => exact absurd (List.perm_nil.mp h) (by simp)
+    | cons a' t' =>
+      simp only [stackMap]
+      have ha' : a' ∈ a :: t := h.mem_iff.mpr (List.mem_cons_self ..)
+      refine ⟨rfl, hs a (List.mem_cons_self ..) a' ha', ?_⟩
+      rw [hn a (List.mem_cons_self ..), hn a' ha']
+      have : (List.range n).map (stackCell (a :: t) f) = (List.range n).map (stackCell (a' :: t') f) :=
+        List.map_congr_left fun i _ => stackCell_perm f h i
+      rw [this]
+      exact List.forall₂_same.mpr (fun c _ => CellR.refl c)
+
+theorem xor_perm (sqrt : Rat → Rat) {xs xs' : List Arr} (h : xs.Perm xs') (n : Nat) (hn : ∀ x ∈ xs, x.cells.length = n) :
+    ExceptR (exec sqrt .fuzzyXOr xs) (exec sqrt .fuzzyXOr xs') := by
+  simp only [exec]
+  rw [← validateShapes_perm _ h, ← h.length_eq]
+  rcases validateShapes_cases (.arg "InFieldNames") xs with hv | hv | hv <;> rw [hv]
+  · by_cases hne : xs = []
+    · subst hne; rw [List.nil_perm.mp h]; exact ExceptR.eRaw _
+    · have hs := (validateShapes_ok_iff _ xs hne).mp hv
+      show ExceptR (if xs.length < 2 then _ else _) (if xs.length < 2 then _ else _)
+      split
+      · exact ExceptR.eRaw _
+      · exact fuzzyClamp_R (ExceptR.ok (stackMap_perm _ h n hn hs))
+  · exact ExceptR.eMp _ _
+  · exact ExceptR.eMp _ _
+
+theorem selectedUnion_perm (sqrt : Rat → Rat) (sel : String) (k : Num) {xs xs' : List Arr} (h : xs.Perm xs') (n : Nat)
+    (hn : ∀ x ∈ xs, x.cells.length = n) :
+    ExceptR (exec sqrt (.fuzzySelectedUnion sel k) xs) (exec sqrt (.fuzzySelectedUnion sel k) xs') := by
+  simp only [exec]
+  rw [← validateShapes_perm _ h, ← h.length_eq]
+  rcases validateShapes_cases (.arg "InFieldNames") xs with hv | hv | hv <;> rw [hv]
+  · by_cases hne : xs = []
+    · subst hne; rw [List.nil_perm.mp h]
+      show ExceptR (if _ then _ else _) (if _ then _ else _)
+      split_goal
+      all_goals first | exact ExceptR.eMp _ _ | exact ExceptR.eRaw _ | exact ExceptR.ok (ArrR.refl _)
+    · have hs := (validateShapes_ok_iff _ xs hne).mp hv
+      show ExceptR (if _ then _ else _) (if _ then _ else _)
+      split_goal
+      all_goals first | exact ExceptR.eMp _ _ | exact ExceptR.eRaw _ | exact fuzzyClamp_R (ExceptR.ok (stackMap_perm _ h n hn hs))
+  · exact ExceptR.eMp _ _
+  · exact ExceptR.eMp _ _
+
+/-- `FuzzyUnion`: every input order gives the same outcome -/
+theorem union_perm (sqrt : Rat → Rat) {xs xs' : List Arr} (h : xs.Perm xs') (n : Nat) (hn : ∀ x ∈ xs, x.cells.length = n) :
+    ExceptR (exec sqrt .fuzzyUnion xs) (exec sqrt .fuzzyUnion xs') := by
+  simp only [exec]
+  rw [← validateShapes_perm _ h, ← h.length_eq]
+  rcases validateShapes_cases (.arg "InFieldNames") xs with hv | hv | hv <;> rw [hv]
+  · cases xs with
+    | nil => rw [List.nil_perm.mp h]; exact ExceptR.eMp _ _
+    | cons a t =>
+      cases xs' with
+      | nil => exact absurd (List.perm_nil.mp h) (by simp)
+      | cons a' t' =>
+        have hs := (validateShapes_ok_iff _ (a :: t) (by simp)).mp hv
+        have hf := foldArr_perm (· + ·) (fun a b => add_comm a b) (fun a b c => add_assoc a b c) .float h n hn
+        refine fuzzyClamp_R (ExceptR.ok ⟨?_, ?_, map_R (fun _ _ => divSc_R _) hf⟩)
+        · show (foldArr _ _ a t).dtype = (foldArr _ _ a' t').dtype
+          rw [foldArr_dtype, foldArr_dtype]
+        · show (foldArr _ _ a t).shape = (foldArr _ _ a' t').shape
+          rw [naryFold_perm.C05_foldArr_shape, naryFold_perm.C05_foldArr_shape]
+          exact hs a (List.mem_cons_self ..) a' (h.mem_iff.mpr (List.mem_cons_self ..))
+  · exact ExceptR.eMp _ _
+  · exact ExceptR.eMp _ _
+
+/-! ### admissibility guards are the code's own -/
+
+theorem selectedUnion_k_too_large (sqrt : Rat → Rat) (sel : String) (k : Num) (xs : List Arr)
+    (hv : validateShapes (.arg "InFieldNames") xs = .ok ()) (hk : (xs.length : Rat) < k.val) :
+    exec sqrt (.fuzzySelectedUnion sel k) xs = eMp "InvalidNumberToConsider" (.arg "NumberToConsider") := by
+  simp only [exec, hv]
+  show (if _ then _ else _) = _
+  rw [if_pos hk]
+
+/-- non-vacuity: Or of two concrete fuzzy arrays with a missing cell -/
+example : exec (fun x => x) .fuzzyOr [⟨.float, [2], [⟨1/2, false⟩, ⟨0, true⟩]⟩, ⟨.float, [2], [⟨1/4, false⟩, ⟨1, false⟩]⟩]
+    = .ok ⟨.float, [2], [⟨1/2, false⟩, ⟨fillValue, true⟩]⟩ := by decide +kernel
+
+end MPilot.C06
